@@ -20,8 +20,18 @@ class FaultyFile:
         return self.f.seek(off, whence)
 
     def read(self, n=-1):
+        # POSIX semantics: the file position advances by the bytes actually delivered (a short read leaves it
+        # behind the delivered prefix, a failed read where it was)
+        pos = self.f.tell()
         b = self.f.read(n)
-        return self.plan.apply(b, n)
+        try:
+            out = self.plan.apply(b, n)
+        except Exception:
+            self.f.seek(pos)
+            raise
+        if len(out) != len(b):
+            self.f.seek(pos + len(out))
+        return out
 
     def tell(self):
         return self.f.tell()
